@@ -316,6 +316,8 @@ def run_summarize_engine(tier):
            "panics": [{"id": i, "panic": r["panic"]} for i, r in recs_all.items() if r.get("panic")],
            "stats": {"retried": sum(1 for r in recs_all.values() if r["actual"]["retried_steps"] > 0),
                      "hookerr": sum(1 for r in recs_all.values() if r["actual"]["hook_errors"] > 0),
+                     "retried_or_hookerr": sum(1 for r in recs_all.values()
+                                               if r["actual"]["hook_errors"] > 0 or r["actual"]["retried_steps"] > 0),
                      "failed": sum(1 for r in recs_all.values() if r["actual"]["failed"]),
                      "distinct": len({json.dumps(s["stream"], sort_keys=True) for s in streams})},
            "bad": {i: {"universe": recs_all[i]["universe"], "stream": recs_all[i]["stream"],
@@ -365,9 +367,10 @@ def check_c12(tier):
                        "tlc -workers 1 Trace_Summarize.tla",
         "traces_validated_against_impl": res["n"], "trace_events": res["events"],
         "evaluations": res["n"],
-        "distinct_nontrivial": res["stats"]["retried"] + res["stats"]["hookerr"],
+        "distinct_nontrivial": res["stats"].get("retried_or_hookerr",
+                                                 max(res["stats"]["retried"], res["stats"]["hookerr"])),
         "rule": "streams are sampled by TLC (-simulate) from SeqGen.tla; counted non-trivial if the real "
-                "Summarize ended with retried_steps > 0 (plus those with hook_errors > 0): only such "
+                "Summarize ended with retried_steps > 0 or hook_errors > 0: only such "
                 "streams can distinguish a last attempt from an earlier one; "
                 f"{res['stats']['distinct']} of the streams are pairwise distinct",
         "samples": [{"stream": res["sample_stream"], "real_summarize": res["sample"]}],
